@@ -2081,7 +2081,11 @@ fn run_case(rep: &mut Report, drv: &mut Driver, seed: u64, index: u64) {
                                 if pd >= pc {
                                     viol(rep, 
                                         "a constant was evaluated before a constant it depends on",
-                                        "order",
+                                        &format!(
+                                            "order:{}-after-{}",
+                                            if zero_sized(items[dd].ty) { "zero-sized-dependency" } else { "sized-dependency" },
+                                            if zero_sized(items[c].ty) { "zero-sized" } else { "sized" }
+                                        ),
                                         json!({"case": input, "constant": items[c].name(), "dependency": items[dd].name(), "log": log}),
                                     );
                                 }
